@@ -32,250 +32,257 @@ def run(ctx: Context) -> None:
     ctx.assume("NOT decided by execution: agreement of blur_mask / smear_mask with their definition on all small arrays; R07.3/R07.4 are the symbolic counterpart for all sizes")
 
     # ------------------------------------------------------------------ R07.1
-    impls = p.implementations(base, 'make_clip_mask')
-    ctx.require(len(impls) >= 3, f"expected >= 3 make_clip_mask implementations, found {len(impls)}")
-    queries = {}
-    for fi in impls:
-        flow = ctx.flow(fi)
-        qs = strtree_queries(ctx, fi)
-        ctx.need('R07.1', len(qs) == 1, f"{fi.short} queries the spatial index once", fi)
-        q = qs[0]
-        queries[fi.qualname] = q
-        ctx.check('R07.1', predicate_of(q) == 'intersects', "predicate is the literal 'intersects' (touching counts)", fi, q,
-                  construct=f"{fi.short}: predicate={predicate_of(q)!r}")
-        geom = q.args[0] if q.args else kwarg(q, 'geometry')
-        ok = geom is not None and flow.canon(geom) == ('param', fi.params[1]) and flow.canon(q.func.value) == ('attr', ('param', 'self'), 'strtree')
-        ctx.check('R07.1', ok, "the geometry queried is the clip geometry argument, on this convention's own index", fi, q,
-                  construct=f"{fi.short}: query({norm_text(geom) if geom is not None else '?'})")
+    with ctx.section('R07.1'):
+        impls = p.implementations(base, 'make_clip_mask')
+        ctx.require(len(impls) >= 3, f"expected >= 3 make_clip_mask implementations, found {len(impls)}")
+        queries = {}
+        for fi in impls:
+            flow = ctx.flow(fi)
+            qs = strtree_queries(ctx, fi)
+            ctx.need('R07.1', len(qs) == 1, f"{fi.short} queries the spatial index once", fi)
+            q = qs[0]
+            queries[fi.qualname] = q
+            ctx.check('R07.1', predicate_of(q) == 'intersects', "predicate is the literal 'intersects' (touching counts)", fi, q,
+                      construct=f"{fi.short}: predicate={predicate_of(q)!r}")
+            geom = q.args[0] if q.args else kwarg(q, 'geometry')
+            ok = geom is not None and flow.canon(geom) == ('param', fi.params[1]) and flow.canon(q.func.value) == ('attr', ('param', 'self'), 'strtree')
+            ctx.check('R07.1', ok, "the geometry queried is the clip geometry argument, on this convention's own index", fi, q,
+                      construct=f"{fi.short}: query({norm_text(geom) if geom is not None else '?'})")
 
     # ------------------------------------------------------------------ R07.2 grid conventions
-    shape_fi, cf_shape = topology_shape(ctx, f"{GRID}.CFGridTopology")
-    ak_fi, ak_shape = topology_shape(ctx, f"{ARAKAWA}.ArakawaCGridTopology")
-    for qual, shape_txt, shape_syms, dims_handles in (
-            (f"{GRID}.CFGrid.make_clip_mask", 'topology.shape', cf_shape, ['y_dimension', 'x_dimension']),
-            (f"{ARAKAWA}.ArakawaC.make_clip_mask", 'self.face.shape', ak_shape, ['j_dimension', 'i_dimension'])):
-        fi = ctx.func(qual)
-        flow = ctx.flow(fi)
-        q = queries[fi.qualname]
-        allocs = [n for n in walk_no_nested(fi.node) if isinstance(n, ast.Assign) and isinstance(n.value, ast.Call)
-                  and callee(ctx, fi, n.value) in ('numpy.full', 'numpy.zeros')]
-        ctx.need('R07.2', len(allocs) == 1, f"{fi.short} allocates one mask array", fi)
-        al = allocs[0]
-        mname = norm_text(al.targets[0])
-        fillv = kwarg(al.value, 'fill_value') or (al.value.args[1] if len(al.value.args) > 1 else None)
-        ok_alloc = (norm_text(flow.resolve(al.value.args[0])).endswith(shape_txt.split('.', 1)[-1]) or norm_text(al.value.args[0]) == shape_txt) \
-            and (callee(ctx, fi, al.value) == 'numpy.zeros' or const_value(fillv, None) is False) and kwarg(al.value, 'order') is None
-        ctx.check('R07.2', ok_alloc, "the mask is a fresh C-ordered all-False array of the face grid's shape", fi, al, construct=f"{fi.short}: {norm_text(al)}")
-        ok_shape = shape_syms is not None and [s.show() for s in shape_syms] == [size_sym(h).show() for h in dims_handles]
-        ctx.check('R07.2', ok_shape, "that shape is (size of the first grid dimension, size of the second)", shape_fi if 'CFGrid' in qual else ak_fi,
-                  (shape_fi if 'CFGrid' in qual else ak_fi).node, construct=f"{shape_txt} = {[s.show() for s in shape_syms] if shape_syms else '?'}")
-        writes = [n for n in walk_no_nested(fi.node) if isinstance(n, ast.Assign) and isinstance(n.targets[0], ast.Subscript)
-                  and isinstance(n.targets[0].value, ast.Call) and isinstance(n.targets[0].value.func, ast.Attribute)
-                  and n.targets[0].value.func.attr in ('ravel', 'reshape') and norm_text(n.targets[0].value.func.value) == mname]
-        flat_ok = False
-        if len(writes) == 1:
-            w = writes[0]
-            view = w.targets[0].value
-            is_view = view.func.attr == 'ravel' and not view.args and not view.keywords
-            idx_ok = flow.resolve(w.targets[0].slice) is q
-            val_ok = const_value(w.value, None) is True
-            between = [n for n in walk_no_nested(fi.node) if isinstance(n, ast.Assign) and norm_text(n.targets[0]) == mname and al.lineno < n.lineno < w.lineno]
-            flat_ok = is_view and idx_ok and val_ok and not between
-        ctx.check('R07.2', flat_ok, "exactly the hit positions are set True through mask.ravel() (a view of the fresh array: linear index order)", fi,
-                  writes[0] if writes else fi.node, construct=f"{fi.short}: {norm_text(writes[0]) if writes else 'flat write not found'}")
-        blurs = [c for c in calls_in(fi) if callee(ctx, fi, c) == f"{MASKING}.blur_mask"]
-        ok_blur = False
-        if len(blurs) == 1:
-            b = blurs[0]
-            g = [(norm_text(st.test), inb) for st, inb in enclosing_ifs(fi, b)]
-            st = stmt_of(fi, b)
-            ok_blur = (('buffer > 0', True) in g and len(g) == 1 and norm_text(b.args[0]) == mname
-                       and norm_text(kwarg(b, 'size') or (b.args[1] if len(b.args) > 1 else ast.Constant(None))) == 'buffer'
-                       and isinstance(st, ast.Assign) and norm_text(st.targets[0]) == mname)
-        ctx.check('R07.2', ok_blur, "the mask is dilated with size=buffer exactly when buffer > 0", fi, blurs[0] if blurs else fi.node,
-                  construct=f"{fi.short}: " + (norm_text(stmt_of(fi, blurs[0])) if blurs else 'no blur_mask call'))
-        if 'CFGrid' in qual:
-            das = [c for c in calls_in(fi) if (callee(ctx, fi, c) or '').endswith('xarray.DataArray')]
-            ok = False
-            if len(das) == 1:
-                d = kwarg(das[0], 'dims')
-                dl = flow.resolve(d) if d is not None else None
-                ok = (norm_text(kwarg(das[0], 'data') or das[0].args[0]) == mname and isinstance(dl, (ast.List, ast.Tuple))
-                      and [norm_text(e) for e in dl.elts] == [f"topology.{h}" for h in dims_handles])
-            ctx.check('R07.2', ok, "the mask variable is declared on [y_dimension, x_dimension], matching the array's axes", fi, das[0] if das else fi.node)
-        else:
-            cm = [c for c in calls_in(fi) if callee(ctx, fi, c) == f"{ARAKAWA}.c_mask_from_centres"]
-            ok = len(cm) == 1 and norm_text(cm[0].args[0]) == mname and 'self.grid_dimensions' in norm_text(flow.resolve(cm[0].args[1]))
-            ctx.check('R07.2', ok, "the face mask and the convention's own grid_dimensions go to c_mask_from_centres", fi, cm[0] if cm else fi.node)
+    with ctx.section('R07.2 grid conventions'):
+        shape_fi, cf_shape = topology_shape(ctx, f"{GRID}.CFGridTopology")
+        ak_fi, ak_shape = topology_shape(ctx, f"{ARAKAWA}.ArakawaCGridTopology")
+        for qual, shape_txt, shape_syms, dims_handles in (
+                (f"{GRID}.CFGrid.make_clip_mask", 'topology.shape', cf_shape, ['y_dimension', 'x_dimension']),
+                (f"{ARAKAWA}.ArakawaC.make_clip_mask", 'self.face.shape', ak_shape, ['j_dimension', 'i_dimension'])):
+            fi = ctx.func(qual)
+            flow = ctx.flow(fi)
+            q = queries[fi.qualname]
+            allocs = [n for n in walk_no_nested(fi.node) if isinstance(n, ast.Assign) and isinstance(n.value, ast.Call)
+                      and callee(ctx, fi, n.value) in ('numpy.full', 'numpy.zeros')]
+            ctx.need('R07.2', len(allocs) == 1, f"{fi.short} allocates one mask array", fi)
+            al = allocs[0]
+            mname = norm_text(al.targets[0])
+            fillv = kwarg(al.value, 'fill_value') or (al.value.args[1] if len(al.value.args) > 1 else None)
+            ok_alloc = (norm_text(flow.resolve(al.value.args[0])).endswith(shape_txt.split('.', 1)[-1]) or norm_text(al.value.args[0]) == shape_txt) \
+                and (callee(ctx, fi, al.value) == 'numpy.zeros' or const_value(fillv, None) is False) and kwarg(al.value, 'order') is None
+            ctx.check('R07.2', ok_alloc, "the mask is a fresh C-ordered all-False array of the face grid's shape", fi, al, construct=f"{fi.short}: {norm_text(al)}")
+            ok_shape = shape_syms is not None and [s.show() for s in shape_syms] == [size_sym(h).show() for h in dims_handles]
+            ctx.check('R07.2', ok_shape, "that shape is (size of the first grid dimension, size of the second)", shape_fi if 'CFGrid' in qual else ak_fi,
+                      (shape_fi if 'CFGrid' in qual else ak_fi).node, construct=f"{shape_txt} = {[s.show() for s in shape_syms] if shape_syms else '?'}")
+            writes = [n for n in walk_no_nested(fi.node) if isinstance(n, ast.Assign) and isinstance(n.targets[0], ast.Subscript)
+                      and isinstance(n.targets[0].value, ast.Call) and isinstance(n.targets[0].value.func, ast.Attribute)
+                      and n.targets[0].value.func.attr in ('ravel', 'reshape') and norm_text(n.targets[0].value.func.value) == mname]
+            flat_ok = False
+            if len(writes) == 1:
+                w = writes[0]
+                view = w.targets[0].value
+                is_view = view.func.attr == 'ravel' and not view.args and not view.keywords
+                idx_ok = flow.resolve(w.targets[0].slice) is q
+                val_ok = const_value(w.value, None) is True
+                between = [n for n in walk_no_nested(fi.node) if isinstance(n, ast.Assign) and norm_text(n.targets[0]) == mname and al.lineno < n.lineno < w.lineno]
+                flat_ok = is_view and idx_ok and val_ok and not between
+            ctx.check('R07.2', flat_ok, "exactly the hit positions are set True through mask.ravel() (a view of the fresh array: linear index order)", fi,
+                      writes[0] if writes else fi.node, construct=f"{fi.short}: {norm_text(writes[0]) if writes else 'flat write not found'}")
+            blurs = [c for c in calls_in(fi) if callee(ctx, fi, c) == f"{MASKING}.blur_mask"]
+            ok_blur = False
+            if len(blurs) == 1:
+                b = blurs[0]
+                g = [(norm_text(st.test), inb) for st, inb in enclosing_ifs(fi, b)]
+                st = stmt_of(fi, b)
+                ok_blur = (('buffer > 0', True) in g and len(g) == 1 and norm_text(b.args[0]) == mname
+                           and norm_text(kwarg(b, 'size') or (b.args[1] if len(b.args) > 1 else ast.Constant(None))) == 'buffer'
+                           and isinstance(st, ast.Assign) and norm_text(st.targets[0]) == mname)
+            ctx.check('R07.2', ok_blur, "the mask is dilated with size=buffer exactly when buffer > 0", fi, blurs[0] if blurs else fi.node,
+                      construct=f"{fi.short}: " + (norm_text(stmt_of(fi, blurs[0])) if blurs else 'no blur_mask call'))
+            if 'CFGrid' in qual:
+                das = [c for c in calls_in(fi) if (callee(ctx, fi, c) or '').endswith('xarray.DataArray')]
+                ok = False
+                if len(das) == 1:
+                    d = kwarg(das[0], 'dims')
+                    dl = flow.resolve(d) if d is not None else None
+                    ok = (norm_text(kwarg(das[0], 'data') or das[0].args[0]) == mname and isinstance(dl, (ast.List, ast.Tuple))
+                          and [norm_text(e) for e in dl.elts] == [f"topology.{h}" for h in dims_handles])
+                ctx.check('R07.2', ok, "the mask variable is declared on [y_dimension, x_dimension], matching the array's axes", fi, das[0] if das else fi.node)
+            else:
+                cm = [c for c in calls_in(fi) if callee(ctx, fi, c) == f"{ARAKAWA}.c_mask_from_centres"]
+                ok = len(cm) == 1 and norm_text(cm[0].args[0]) == mname and 'self.grid_dimensions' in norm_text(flow.resolve(cm[0].args[1]))
+                ctx.check('R07.2', ok, "the face mask and the convention's own grid_dimensions go to c_mask_from_centres", fi, cm[0] if cm else fi.node)
 
     # ------------------------------------------------------------------ R07.3 blur_mask
-    bm = ctx.func(f"{MASKING}.blur_mask")
-    bflow = ctx.flow(bm)
-    arr_p, size_p = bm.params[0], bm.params[1]
-    pads = [c for c in calls_in(bm, nested=True) if callee(ctx, bm, c) == 'numpy.pad']
-    ctx.need('R07.3', len(pads) == 1, "blur_mask pads the input once", bm)
-    pd = pads[0]
-    width = linear(bflow, pd.args[1] if len(pd.args) > 1 else kwarg(pd, 'pad_width'), {size_p: symbol('size')})
-    cv = kwarg(pd, 'constant_values')
-    ok = (norm_text(pd.args[0]) == arr_p and width == symbol('size') and cv is not None and const_value(cv, None) is False)
-    ctx.check('R07.3', ok, "the input is padded by `size` cells of False on every side", bm, pd, construct=f"pad width {width.show() if width is not None else '?'}, constant {norm_text(cv) if cv is not None else 'default'}")
-    slices = [c for c in calls_in(bm, nested=True) if dotted(c.func) == 'slice']
-    ok_win = False
-    detail = 'window slice not found'
-    if len(slices) == 1 and len(slices[0].args) == 2:
-        lo = linear(bflow, slices[0].args[0], {size_p: symbol('size'), 'i': symbol('i')})
-        hi = linear(bflow, slices[0].args[1], {size_p: symbol('size'), 'i': symbol('i')})
-        if lo is not None and hi is not None and width is not None:
-            # original cell i sits at i + p in the padded array; window must be [i + p - size, i + p + size]
-            centred = (lo - symbol('i')) == (width - symbol('size'))
-            length = (hi - lo) == symbol('size').scale(2) + const(1)
-            ok_win = centred and length
-            detail = f"window [{lo.show()}, {hi.show()}) with pad {width.show()}"
-    ctx.check('R07.3', ok_win, "the window covers [i - size, i + size] of the original on every axis", bm, slices[0] if slices else bm.node,
-              construct=f"blur window: {detail}")
-    # the slices are built per axis of the cell's own multi index, applied to the padded array, reduced with any()
-    ok = False
-    for n in ast.walk(bm.node):
-        if isinstance(n, ast.GeneratorExp) and isinstance(n.elt, ast.BoolOp) and isinstance(n.elt.op, ast.Or):
-            left, right = n.elt.values[0], n.elt.values[-1]
-            ok = (norm_text(left) == f"{arr_p}[index]" and isinstance(right, ast.Call) and callee(ctx, bm, right) == 'numpy.any'
-                  and isinstance(right.args[0], ast.Subscript) and bflow.resolve(right.args[0].value) is pd
-                  and norm_text(right.args[0].slice).startswith('tuple((slice(') and norm_text(right.args[0].slice).endswith('for i in index))')
-                  and norm_text(n.generators[0].iter) == 'indexes' and not n.generators[0].ifs)
-    ctx.check('R07.3', ok, "a cell is marked iff it was marked or any cell of its window is (window built from the cell's own index on every axis)", bm, bm.node,
-              construct='values = (arr[index] or numpy.any(padded[window(index)]) for index in indexes)')
-    idx = [n for n in ast.walk(bm.node) if isinstance(n, ast.GeneratorExp) and norm_text(n.elt) == 'arr_iter.multi_index']
-    it = [n for n in walk_no_nested(bm.node) if isinstance(n, ast.Assign) and norm_text(n.targets[0]) == 'arr_iter']
-    ok = len(idx) == 1 and bool(it) and norm_text(it[0].value) == f"numpy.nditer({arr_p}, ['multi_index'])"
-    ctx.check('R07.3', ok, "cells are visited once each in the array's C iteration order", bm, it[0] if it else bm.node)
-    fr = [c for c in calls_in(bm) if callee(ctx, bm, c) == 'numpy.fromiter']
-    ok = False
-    if len(fr) == 1:
-        outer = None
-        for c in calls_in(bm):
-            if isinstance(c.func, ast.Attribute) and c.func.attr == 'reshape' and c.func.value is fr[0]:
-                outer = c
-        ok = (outer is not None and norm_text(outer.args[0]) == f"{arr_p}.shape" and kwarg(outer, 'order') is None
-              and norm_text(kwarg(fr[0], 'count') or ast.Constant(None)) == f"{arr_p}.size" and norm_text(fr[0].args[0]) == 'values')
-    ctx.check('R07.3', ok, "the per-cell results are reshaped to the input shape in that same order", bm, fr[0] if fr else bm.node)
-    rets = bm.returns()
-    ok = bool(rets) and bool(fr) and all(bflow.reaches(r.value, lambda n: n is fr[0]) for r in rets)
-    ctx.check('R07.3', ok, "every exit of blur_mask returns that per-cell result (no short cut for special sizes or shapes)", bm,
-              next((r for r in rets if not (fr and bflow.reaches(r.value, lambda n: n is fr[0]))), bm.node),
-              construct=f"blur_mask returns: {[norm_text(r.value)[:50] for r in rets]}")
-    from .common import purity_obligations
-    purity_obligations(ctx, 'R07.5', bm, [arr_p], "blur_mask")
+    with ctx.section('R07.3 blur_mask'):
+        bm = ctx.func(f"{MASKING}.blur_mask")
+        bflow = ctx.flow(bm)
+        arr_p, size_p = bm.params[0], bm.params[1]
+        pads = [c for c in calls_in(bm, nested=True) if callee(ctx, bm, c) == 'numpy.pad']
+        ctx.need('R07.3', len(pads) == 1, "blur_mask pads the input once", bm)
+        pd = pads[0]
+        width = linear(bflow, pd.args[1] if len(pd.args) > 1 else kwarg(pd, 'pad_width'), {size_p: symbol('size')})
+        cv = kwarg(pd, 'constant_values')
+        ok = (norm_text(pd.args[0]) == arr_p and width == symbol('size') and cv is not None and const_value(cv, None) is False)
+        ctx.check('R07.3', ok, "the input is padded by `size` cells of False on every side", bm, pd, construct=f"pad width {width.show() if width is not None else '?'}, constant {norm_text(cv) if cv is not None else 'default'}")
+        slices = [c for c in calls_in(bm, nested=True) if dotted(c.func) == 'slice']
+        ok_win = False
+        detail = 'window slice not found'
+        if len(slices) == 1 and len(slices[0].args) == 2:
+            lo = linear(bflow, slices[0].args[0], {size_p: symbol('size'), 'i': symbol('i')})
+            hi = linear(bflow, slices[0].args[1], {size_p: symbol('size'), 'i': symbol('i')})
+            if lo is not None and hi is not None and width is not None:
+                # original cell i sits at i + p in the padded array; window must be [i + p - size, i + p + size]
+                centred = (lo - symbol('i')) == (width - symbol('size'))
+                length = (hi - lo) == symbol('size').scale(2) + const(1)
+                ok_win = centred and length
+                detail = f"window [{lo.show()}, {hi.show()}) with pad {width.show()}"
+        ctx.check('R07.3', ok_win, "the window covers [i - size, i + size] of the original on every axis", bm, slices[0] if slices else bm.node,
+                  construct=f"blur window: {detail}")
+        # the slices are built per axis of the cell's own multi index, applied to the padded array, reduced with any()
+        ok = False
+        for n in ast.walk(bm.node):
+            if isinstance(n, ast.GeneratorExp) and isinstance(n.elt, ast.BoolOp) and isinstance(n.elt.op, ast.Or):
+                left, right = n.elt.values[0], n.elt.values[-1]
+                ok = (norm_text(left) == f"{arr_p}[index]" and isinstance(right, ast.Call) and callee(ctx, bm, right) == 'numpy.any'
+                      and isinstance(right.args[0], ast.Subscript) and bflow.resolve(right.args[0].value) is pd
+                      and norm_text(right.args[0].slice).startswith('tuple((slice(') and norm_text(right.args[0].slice).endswith('for i in index))')
+                      and norm_text(n.generators[0].iter) == 'indexes' and not n.generators[0].ifs)
+        ctx.check('R07.3', ok, "a cell is marked iff it was marked or any cell of its window is (window built from the cell's own index on every axis)", bm, bm.node,
+                  construct='values = (arr[index] or numpy.any(padded[window(index)]) for index in indexes)')
+        idx = [n for n in ast.walk(bm.node) if isinstance(n, ast.GeneratorExp) and norm_text(n.elt) == 'arr_iter.multi_index']
+        it = [n for n in walk_no_nested(bm.node) if isinstance(n, ast.Assign) and norm_text(n.targets[0]) == 'arr_iter']
+        ok = len(idx) == 1 and bool(it) and norm_text(it[0].value) == f"numpy.nditer({arr_p}, ['multi_index'])"
+        ctx.check('R07.3', ok, "cells are visited once each in the array's C iteration order", bm, it[0] if it else bm.node)
+        fr = [c for c in calls_in(bm) if callee(ctx, bm, c) == 'numpy.fromiter']
+        ok = False
+        if len(fr) == 1:
+            outer = None
+            for c in calls_in(bm):
+                if isinstance(c.func, ast.Attribute) and c.func.attr == 'reshape' and c.func.value is fr[0]:
+                    outer = c
+            ok = (outer is not None and norm_text(outer.args[0]) == f"{arr_p}.shape" and kwarg(outer, 'order') is None
+                  and norm_text(kwarg(fr[0], 'count') or ast.Constant(None)) == f"{arr_p}.size" and norm_text(fr[0].args[0]) == 'values')
+        ctx.check('R07.3', ok, "the per-cell results are reshaped to the input shape in that same order", bm, fr[0] if fr else bm.node)
+        rets = bm.returns()
+        ok = bool(rets) and bool(fr) and all(bflow.reaches(r.value, lambda n: n is fr[0]) for r in rets)
+        ctx.check('R07.3', ok, "every exit of blur_mask returns that per-cell result (no short cut for special sizes or shapes)", bm,
+                  next((r for r in rets if not (fr and bflow.reaches(r.value, lambda n: n is fr[0]))), bm.node),
+                  construct=f"blur_mask returns: {[norm_text(r.value)[:50] for r in rets]}")
+        from .common import purity_obligations
+        purity_obligations(ctx, 'R07.5', bm, [arr_p], "blur_mask")
 
     # ------------------------------------------------------------------ R07.4
-    cm = ctx.func(f"{ARAKAWA}.c_mask_from_centres")
-    table = {}
-    for n in walk_no_nested(cm.node):
-        if isinstance(n, ast.Assign) and isinstance(n.value, ast.Call) and callee(ctx, cm, n.value) == f"{MASKING}.smear_mask":
-            axes = n.value.args[1]
-            table[norm_text(n.targets[0])] = ([const_value(e, None) for e in axes.elts] if isinstance(axes, (ast.List, ast.Tuple)) else None,
-                                              norm_text(n.value.args[0]))
-    want = {'left_mask': ([False, True], cm.params[0]), 'back_mask': ([True, False], cm.params[0]), 'node_mask': ([True, True], cm.params[0])}
-    for name, w in want.items():
-        ctx.check('R07.4', table.get(name) == w, f"{name} = smear of the face mask along {['', 'the second axis', 'the first axis', 'both axes'][(2 if w[0][0] else 0) + (1 if w[0][1] else 0)]}",
-                  cm, cm.node, construct=f"{name}: smear_mask{table.get(name)}")
-    sm = ctx.func(f"{MASKING}.smear_mask")
-    txt = ' '.join(norm_text(s) for s in sm.body)
-    ok = ("itertools.product(*([(1, 0), (0, 1)] if pad_axis else [(0, 0)] for pad_axis in pad_axes))" in txt
-          and "functools.reduce(operator.or_, (numpy.pad(arr, pad) for pad in paddings))" in txt)
-    ctx.check('R07.4', ok, "smear_mask ORs every combination of a one-cell shift before / after on the selected axes (array grows by one there)", sm, sm.node)
+    with ctx.section('R07.4'):
+        cm = ctx.func(f"{ARAKAWA}.c_mask_from_centres")
+        table = {}
+        for n in walk_no_nested(cm.node):
+            if isinstance(n, ast.Assign) and isinstance(n.value, ast.Call) and callee(ctx, cm, n.value) == f"{MASKING}.smear_mask":
+                axes = n.value.args[1]
+                table[norm_text(n.targets[0])] = ([const_value(e, None) for e in axes.elts] if isinstance(axes, (ast.List, ast.Tuple)) else None,
+                                                  norm_text(n.value.args[0]))
+        want = {'left_mask': ([False, True], cm.params[0]), 'back_mask': ([True, False], cm.params[0]), 'node_mask': ([True, True], cm.params[0])}
+        for name, w in want.items():
+            ctx.check('R07.4', table.get(name) == w, f"{name} = smear of the face mask along {['', 'the second axis', 'the first axis', 'both axes'][(2 if w[0][0] else 0) + (1 if w[0][1] else 0)]}",
+                      cm, cm.node, construct=f"{name}: smear_mask{table.get(name)}")
+        sm = ctx.func(f"{MASKING}.smear_mask")
+        txt = ' '.join(norm_text(s) for s in sm.body)
+        ok = ("itertools.product(*([(1, 0), (0, 1)] if pad_axis else [(0, 0)] for pad_axis in pad_axes))" in txt
+              and "functools.reduce(operator.or_, (numpy.pad(arr, pad) for pad in paddings))" in txt)
+        ctx.check('R07.4', ok, "smear_mask ORs every combination of a one-cell shift before / after on the selected axes (array grows by one there)", sm, sm.node)
 
     # ------------------------------------------------------------------ R07.5 polarity
-    scope = [fi for fi in impls] + [bm, sm, cm, ctx.func(f"{UGRID}.buffer_faces")]
-    for fi in scope:
-        bad = []
-        for n in ast.walk(fi.node):
-            if isinstance(n, ast.UnaryOp) and isinstance(n.op, NEGATIVE_OPS):
-                bad.append(n)
-            elif isinstance(n, ast.BinOp) and isinstance(n.op, (ast.BitXor,)):
-                bad.append(n)
-            elif isinstance(n, ast.Compare) and any(isinstance(o, (ast.NotEq, ast.NotIn)) for o in n.ops):
-                bad.append(n)
-            elif isinstance(n, ast.Call) and isinstance(n.func, ast.Attribute) and n.func.attr in ('difference', 'symmetric_difference', 'difference_update', 'discard', 'remove'):
-                bad.append(n)
-            elif isinstance(n, ast.Call) and (callee(ctx, fi, n) or '') in ('numpy.logical_not', 'numpy.logical_xor', 'numpy.setdiff1d', 'numpy.delete', 'numpy.invert'):
-                bad.append(n)
-            elif isinstance(n, ast.Assign) and isinstance(n.targets[0], ast.Subscript) and const_value(n.value, None) is False:
-                bad.append(n)
-        ctx.check('R07.5', not bad, "no negation / xor / difference / inequality on the way from the hit set to the mask", fi, bad[0] if bad else fi.node,
-                  construct=f"{fi.short}: negative-polarity operators: {[norm_text(b)[:50] for b in bad] or 'none'}")
+    with ctx.section('R07.5 polarity'):
+        scope = [fi for fi in impls] + [bm, sm, cm, ctx.func(f"{UGRID}.buffer_faces")]
+        for fi in scope:
+            bad = []
+            for n in ast.walk(fi.node):
+                if isinstance(n, ast.UnaryOp) and isinstance(n.op, NEGATIVE_OPS):
+                    bad.append(n)
+                elif isinstance(n, ast.BinOp) and isinstance(n.op, (ast.BitXor,)):
+                    bad.append(n)
+                elif isinstance(n, ast.Compare) and any(isinstance(o, (ast.NotEq, ast.NotIn)) for o in n.ops):
+                    bad.append(n)
+                elif isinstance(n, ast.Call) and isinstance(n.func, ast.Attribute) and n.func.attr in ('difference', 'symmetric_difference', 'difference_update', 'discard', 'remove'):
+                    bad.append(n)
+                elif isinstance(n, ast.Call) and (callee(ctx, fi, n) or '') in ('numpy.logical_not', 'numpy.logical_xor', 'numpy.setdiff1d', 'numpy.delete', 'numpy.invert'):
+                    bad.append(n)
+                elif isinstance(n, ast.Assign) and isinstance(n.targets[0], ast.Subscript) and const_value(n.value, None) is False:
+                    bad.append(n)
+            ctx.check('R07.5', not bad, "no negation / xor / difference / inequality on the way from the hit set to the mask", fi, bad[0] if bad else fi.node,
+                      construct=f"{fi.short}: negative-polarity operators: {[norm_text(b)[:50] for b in bad] or 'none'}")
 
     # ------------------------------------------------------------------ R07.6 meshes
-    um = ctx.func(f"{UGRID}.UGrid.make_clip_mask")
-    flow = ctx.flow(um)
-    loops = [n for n in walk_no_nested(um.node) if isinstance(n, ast.For)]
-    ok = False
-    if len(loops) == 1:
-        lp = loops[0]
-        ok = (norm_text(lp.iter) == 'range(buffer)' and len(lp.body) == 1 and norm_text(lp.body[0]) == 'face_indexes = buffer_faces(face_indexes, self.topology)')
-    ctx.check('R07.6', ok, "buffer_faces is applied exactly `buffer` times, each time to the previous result", um, loops[0] if loops else um.node)
-    rets = um.returns()
-    ok = bool(rets) and all(norm_text(r.value) == 'mask_from_face_indexes(face_indexes, self.topology)' for r in rets)
-    fidef = [n for n in walk_no_nested(um.node) if isinstance(n, ast.Assign) and norm_text(n.targets[0]) == 'face_indexes' and n.value is queries[um.qualname]]
-    ctx.check('R07.6', ok and len(fidef) == 1, "the mask is built from the (buffered) hit faces", um, rets[0] if rets else um.node)
-    bf = ctx.func(f"{UGRID}.buffer_faces")
-    txt = [norm_text(s) for s in bf.body]
-    ok = ('original_face_indexes = set(face_indexes.tolist())' in txt and 'face_node = topology.face_node_array' in txt
-          and 'included_nodes = set(numpy.unique(face_node[face_indexes].compressed()))' in txt)
-    gens = [n for n in ast.walk(bf.node) if isinstance(n, ast.GeneratorExp)]
-    ok2 = False
-    if len(gens) == 1:
-        g = gens[0].generators[0]
-        ok2 = (norm_text(g.iter) == 'enumerate(face_node)' and norm_text(gens[0].elt) == 'face_index' and len(g.ifs) == 1
-               and norm_text(g.ifs[0]) == 'face_index in original_face_indexes or bool(included_nodes.intersection(node_indexes.compressed()))')
-    ctx.check('R07.6', ok and ok2, "one ring: the original faces plus every face sharing a node with them, in ascending face order", bf, gens[0] if gens else bf.node)
-    mf = ctx.func(f"{UGRID}.mask_from_face_indexes")
-    mflow = ctx.flow(mf)
-    helper = p.functions.get(f"{mf.qualname}.<locals>.new_element_indexes")
-    ctx.need('R07.6', helper is not None, "mask_from_face_indexes numbers elements through one helper", mf)
-    htxt = [norm_text(s) for s in helper.body]
-    ok = ('new_indexes[indexes] = numpy.arange(len(indexes))' in htxt and any('numpy.ma.masked_array(new_indexes, mask=True)' in t for t in htxt)
-          and any(t.startswith('new_indexes = numpy.full((size,)') for t in htxt) and htxt[-1] == 'return new_indexes')
-    ctx.check('R07.6', ok, "new_element_indexes: a fully masked table of the element count in which the kept positions get 0..n-1 in the order given", helper, helper.node)
-    hcalls = [c for c in calls_in(mf, nested=False) if isinstance(c.func, ast.Name) and c.func.id == 'new_element_indexes']
-    want_src = {'face': None, 'edge': 'topology.face_edge_array', 'node': 'topology.face_node_array'}
-    seen = {}
-    for c in hcalls:
-        size = norm_text(c.args[0])
-        kind = size.replace('topology.', '').replace('_count', '')
-        seen[kind] = c
-        idx = c.args[1]
-        inner = sorted_ascending(ctx, mf, idx)
-        ok = inner is not None and size == f"topology.{kind}_count"
-        # sort(unique(x)) - peel both
-        core = inner
-        while core is not None and sorted_ascending(ctx, mf, core) is not None:
-            core = sorted_ascending(ctx, mf, core)
-        ctx.check('R07.6', ok, f"{kind}s are numbered over a sorted, duplicate free index array, into a table of {kind}_count entries", mf, c,
-                  construct=f"{kind}: new_element_indexes({size}, {norm_text(mflow.resolve(idx))[:70]})")
-        if kind in ('edge', 'node') and core is not None:
-            cr = mflow.resolve(core)
-            ok_src = False
-            if isinstance(cr, ast.Call) and isinstance(cr.func, ast.Attribute) and cr.func.attr == 'compressed' and isinstance(cr.func.value, ast.Subscript):
-                sub = cr.func.value
-                ok_src = norm_text(mflow.resolve(sub.value)) == want_src[kind] and norm_text(sub.slice) == 'face_indexes'
-            ctx.check('R07.6', ok_src, f"kept {kind}s are exactly those listed in the kept faces' rows of {want_src[kind].split('.')[-1]}", mf, c,
-                      construct=f"{kind} source: {norm_text(cr)[:80]}")
-        if kind == 'face' and core is not None:
-            ctx.check('R07.6', mflow.canon(core) == ('param', mf.params[0]) or norm_text(mflow.resolve(core)) == mf.params[0],
-                      "kept faces are the face indexes given", mf, c, construct=f"face source: {norm_text(mflow.resolve(core))}")
-    ctx.check('R07.6', set(seen) == {'face', 'edge', 'node'}, "faces, edges and nodes each get an old-to-new table", mf, mf.node, construct=f"tables for {sorted(seen)}")
-    if 'edge' in seen:
-        g = [(norm_text(st.test), inb) for st, inb in enclosing_ifs(mf, seen['edge'])]
-        ctx.check('R07.6', g == [('topology.has_edge_dimension', True)], "the edge table exists exactly when the mesh has an edge dimension", mf, seen['edge'], construct=f"edge table guard {g}")
-    names = {}
-    for n in walk_no_nested(mf.node):
-        if isinstance(n, ast.Assign) and isinstance(n.targets[0], ast.Subscript) and norm_text(n.targets[0].value) == 'data_vars' and isinstance(n.value, ast.Call):
-            d = kwarg(n.value, 'data')
-            dd = kwarg(n.value, 'dims')
-            names[const_value(n.targets[0].slice, None)] = (d, norm_text(dd) if dd is not None else None)
-    ok = all(k in names and names[k][0] is seen.get(kind) and names[k][1] == f"['old_{kind}_index']" for kind, k in
-             (('face', 'new_face_index'), ('edge', 'new_edge_index'), ('node', 'new_node_index')))
-    ctx.check('R07.6', ok, "each table is stored as new_<kind>_index on dimension old_<kind>_index", mf, mf.node, construct=f"mask variables {sorted(str(k) for k in names)}")
+    with ctx.section('R07.6 meshes'):
+        um = ctx.func(f"{UGRID}.UGrid.make_clip_mask")
+        flow = ctx.flow(um)
+        loops = [n for n in walk_no_nested(um.node) if isinstance(n, ast.For)]
+        ok = False
+        if len(loops) == 1:
+            lp = loops[0]
+            ok = (norm_text(lp.iter) == 'range(buffer)' and len(lp.body) == 1 and norm_text(lp.body[0]) == 'face_indexes = buffer_faces(face_indexes, self.topology)')
+        ctx.check('R07.6', ok, "buffer_faces is applied exactly `buffer` times, each time to the previous result", um, loops[0] if loops else um.node)
+        rets = um.returns()
+        ok = bool(rets) and all(norm_text(r.value) == 'mask_from_face_indexes(face_indexes, self.topology)' for r in rets)
+        fidef = [n for n in walk_no_nested(um.node) if isinstance(n, ast.Assign) and norm_text(n.targets[0]) == 'face_indexes' and n.value is queries[um.qualname]]
+        ctx.check('R07.6', ok and len(fidef) == 1, "the mask is built from the (buffered) hit faces", um, rets[0] if rets else um.node)
+        bf = ctx.func(f"{UGRID}.buffer_faces")
+        txt = [norm_text(s) for s in bf.body]
+        ok = ('original_face_indexes = set(face_indexes.tolist())' in txt and 'face_node = topology.face_node_array' in txt
+              and 'included_nodes = set(numpy.unique(face_node[face_indexes].compressed()))' in txt)
+        gens = [n for n in ast.walk(bf.node) if isinstance(n, ast.GeneratorExp)]
+        ok2 = False
+        if len(gens) == 1:
+            g = gens[0].generators[0]
+            ok2 = (norm_text(g.iter) == 'enumerate(face_node)' and norm_text(gens[0].elt) == 'face_index' and len(g.ifs) == 1
+                   and norm_text(g.ifs[0]) == 'face_index in original_face_indexes or bool(included_nodes.intersection(node_indexes.compressed()))')
+        ctx.check('R07.6', ok and ok2, "one ring: the original faces plus every face sharing a node with them, in ascending face order", bf, gens[0] if gens else bf.node)
+        mf = ctx.func(f"{UGRID}.mask_from_face_indexes")
+        mflow = ctx.flow(mf)
+        helper = p.functions.get(f"{mf.qualname}.<locals>.new_element_indexes")
+        ctx.need('R07.6', helper is not None, "mask_from_face_indexes numbers elements through one helper", mf)
+        htxt = [norm_text(s) for s in helper.body]
+        ok = ('new_indexes[indexes] = numpy.arange(len(indexes))' in htxt and any('numpy.ma.masked_array(new_indexes, mask=True)' in t for t in htxt)
+              and any(t.startswith('new_indexes = numpy.full((size,)') for t in htxt) and htxt[-1] == 'return new_indexes')
+        ctx.check('R07.6', ok, "new_element_indexes: a fully masked table of the element count in which the kept positions get 0..n-1 in the order given", helper, helper.node)
+        hcalls = [c for c in calls_in(mf, nested=False) if isinstance(c.func, ast.Name) and c.func.id == 'new_element_indexes']
+        want_src = {'face': None, 'edge': 'topology.face_edge_array', 'node': 'topology.face_node_array'}
+        seen = {}
+        for c in hcalls:
+            size = norm_text(c.args[0])
+            kind = size.replace('topology.', '').replace('_count', '')
+            seen[kind] = c
+            idx = c.args[1]
+            inner = sorted_ascending(ctx, mf, idx)
+            ok = inner is not None and size == f"topology.{kind}_count"
+            # sort(unique(x)) - peel both
+            core = inner
+            while core is not None and sorted_ascending(ctx, mf, core) is not None:
+                core = sorted_ascending(ctx, mf, core)
+            ctx.check('R07.6', ok, f"{kind}s are numbered over a sorted, duplicate free index array, into a table of {kind}_count entries", mf, c,
+                      construct=f"{kind}: new_element_indexes({size}, {norm_text(mflow.resolve(idx))[:70]})")
+            if kind in ('edge', 'node') and core is not None:
+                cr = mflow.resolve(core)
+                ok_src = False
+                if isinstance(cr, ast.Call) and isinstance(cr.func, ast.Attribute) and cr.func.attr == 'compressed' and isinstance(cr.func.value, ast.Subscript):
+                    sub = cr.func.value
+                    ok_src = norm_text(mflow.resolve(sub.value)) == want_src[kind] and norm_text(sub.slice) == 'face_indexes'
+                ctx.check('R07.6', ok_src, f"kept {kind}s are exactly those listed in the kept faces' rows of {want_src[kind].split('.')[-1]}", mf, c,
+                          construct=f"{kind} source: {norm_text(cr)[:80]}")
+            if kind == 'face' and core is not None:
+                ctx.check('R07.6', mflow.canon(core) == ('param', mf.params[0]) or norm_text(mflow.resolve(core)) == mf.params[0],
+                          "kept faces are the face indexes given", mf, c, construct=f"face source: {norm_text(mflow.resolve(core))}")
+        ctx.check('R07.6', set(seen) == {'face', 'edge', 'node'}, "faces, edges and nodes each get an old-to-new table", mf, mf.node, construct=f"tables for {sorted(seen)}")
+        if 'edge' in seen:
+            g = [(norm_text(st.test), inb) for st, inb in enclosing_ifs(mf, seen['edge'])]
+            ctx.check('R07.6', g == [('topology.has_edge_dimension', True)], "the edge table exists exactly when the mesh has an edge dimension", mf, seen['edge'], construct=f"edge table guard {g}")
+        names = {}
+        for n in walk_no_nested(mf.node):
+            if isinstance(n, ast.Assign) and isinstance(n.targets[0], ast.Subscript) and norm_text(n.targets[0].value) == 'data_vars' and isinstance(n.value, ast.Call):
+                d = kwarg(n.value, 'data')
+                dd = kwarg(n.value, 'dims')
+                names[const_value(n.targets[0].slice, None)] = (d, norm_text(dd) if dd is not None else None)
+        ok = all(k in names and names[k][0] is seen.get(kind) and names[k][1] == f"['old_{kind}_index']" for kind, k in
+                 (('face', 'new_face_index'), ('edge', 'new_edge_index'), ('node', 'new_node_index')))
+        ctx.check('R07.6', ok, "each table is stored as new_<kind>_index on dimension old_<kind>_index", mf, mf.node, construct=f"mask variables {sorted(str(k) for k in names)}")
+
 
 
 # --------------------------------------------------------------------------- checker self-test
